@@ -70,7 +70,9 @@ func (l *Layout) Size(t types.Type) int64 {
 	var s int64
 	switch u := t.Underlying().(type) {
 	case *types.Basic:
-		if u.Kind() == types.UnsafePointer {
+		if u.Kind() == types.Invalid {
+			s = 0 // unused component of a range tuple
+		} else if u.Kind() == types.UnsafePointer {
 			s = 2
 		} else if u.Kind() == types.Complex64 || u.Kind() == types.Complex128 {
 			s = 2
@@ -131,6 +133,7 @@ func (l *Layout) slots(t types.Type, out *[]Sort) {
 	switch u := t.Underlying().(type) {
 	case *types.Basic:
 		switch u.Kind() {
+		case types.Invalid:
 		case types.UnsafePointer, types.UntypedNil:
 			*out = append(*out, ObjSort, BV64)
 		case types.Complex64, types.Complex128:
